@@ -55,6 +55,15 @@ _SCRIPT = textwrap.dedent('''
             return {'output': x['a'] * 0.3 + x['b'] * x['c']}
         def loss(y, p):
             return (y - p['output']) ** 2
+        if cfg.get('river_labels'):
+            # a classifier that emits string labels, behind the library's RiverWrapper (one-hot over the labels seen so far);
+            # the loss looks at the label keys
+            from ixai.utils.wrappers import RiverWrapper
+            model = RiverWrapper(lambda x: 'hi' if x['a'] > 0.6 else ('lo' if x['b'] > 0.5 else 'mid'))
+
+            def loss(y, p):      # noqa
+                tgt = 'hi' if y > 0.6 else 'lo'
+                return sum((v - (1.0 if k == tgt else 0.0)) ** 2 for k, v in p.items()) + 0.125 * len(p)
         if cfg['storage'] == 'tree':
             st = TreeStorage(cat_feature_names=[], num_feature_names=names, grace_period=5, leaf_reservoir_length=3)
             imp = TreeImputer(model, st, use_storage=cfg.get('use_storage', False))
@@ -114,8 +123,9 @@ def _configs(tier):
     cfgs.append({'explainer': 'sage', 'storage': 'tree', 'seed': 4, 'steps': 25, 'in_process': True})
     cfgs.append({'explainer': 'pfi', 'storage': 'tree', 'use_storage': True, 'seed': 4, 'steps': 30, 'in_process': True})
     cfgs.append({'explainer': 'sage', 'storage': 'geometric', 'seed': 4, 'steps': 25, 'in_process': True})
+    cfgs.append({'explainer': 'sage', 'storage': 'geometric', 'seed': 4, 'steps': 25, 'in_process': True, 'river_labels': True})
     if tier == 'quick':
-        cfgs = [cfgs[0], cfgs[2], cfgs[5], cfgs[7], cfgs[8], cfgs[10], cfgs[11]]
+        cfgs = [cfgs[0], cfgs[2], cfgs[5], cfgs[7], cfgs[8], cfgs[10], cfgs[11], cfgs[13]]
     return cfgs
 
 
